@@ -52,6 +52,18 @@ pub fn run_case(c: &Cfg) -> (Option<(String, String)>, u64, Vec<DrawRecord>) {
             let _ = std::fs::remove_dir_all(&dir);
             (res, probe.checked, d.recs)
         }
+        3 => {
+            // async writer over a slow store; the reader looks at the underlying memory store directly
+            let rt = tokio::runtime::Builder::new_multi_thread().worker_threads(3).enable_all().build().unwrap();
+            let store = Arc::new(zarrs::storage::store::MemoryStore::new());
+            let slow = Arc::new(DelayStore { inner: store.clone(), delay: std::time::Duration::from_micros(400) });
+            let astore = Arc::new(zarrs::storage::storage_adapter::sync_to_async::SyncToAsyncStorageAdapter::new(slow, TokioSpawnBlocking));
+            let mut probe = FlushProbe { store: store.clone(), chain, every: c.every, checked: 0, flushes: 0 };
+            let d = drive(&c.run, ZarrAsyncConfig::new(rt.handle().clone(), astore).with_chunk_size(c.chunk), &mut probe, None);
+            let mut res = d.error.clone().map(|e| ("zarr_async.flush_slow_store".to_string(), e));
+            if res.is_none() { if let Err(e) = zarr_check(store.clone(), &d.recs, chain, true, false) { res = Some(("zarr_async.finalize_slow_store".into(), format!("after finalize: {e}"))); } }
+            (res, probe.checked, d.recs)
+        }
         _ => {
             let rt = tokio::runtime::Builder::new_multi_thread().worker_threads(3).enable_all().build().unwrap();
             let store = Arc::new(zarrs::storage::store::MemoryStore::new());
@@ -63,6 +75,28 @@ pub fn run_case(c: &Cfg) -> (Option<(String, String)>, u64, Vec<DrawRecord>) {
             (res, probe.checked, d.recs)
         }
     }
+}
+
+/// a store whose writes take time (any write-queue timing): the in-flight chunk writes of the async backend are still pending when
+/// `record_sample` returns, so a `flush()` that does not wait for them is seen by the reader that follows it
+struct DelayStore { inner: Arc<MemoryStore>, delay: std::time::Duration }
+impl zarrs::storage::ReadableStorageTraits for DelayStore {
+    fn get_partial_many<'a>(&'a self, key: &zarrs::storage::StoreKey, byte_ranges: zarrs::storage::byte_range::ByteRangeIterator<'a>) -> Result<zarrs::storage::MaybeBytesIterator<'a>, zarrs::storage::StorageError> { self.inner.get_partial_many(key, byte_ranges) }
+    fn size_key(&self, key: &zarrs::storage::StoreKey) -> Result<Option<u64>, zarrs::storage::StorageError> { self.inner.size_key(key) }
+    fn supports_get_partial(&self) -> bool { self.inner.supports_get_partial() }
+}
+impl zarrs::storage::WritableStorageTraits for DelayStore {
+    fn set(&self, key: &zarrs::storage::StoreKey, value: zarrs::storage::Bytes) -> Result<(), zarrs::storage::StorageError> { std::thread::sleep(self.delay); self.inner.set(key, value) }
+    fn set_partial_many(&self, key: &zarrs::storage::StoreKey, offset_values: zarrs::storage::OffsetBytesIterator) -> Result<(), zarrs::storage::StorageError> { std::thread::sleep(self.delay); self.inner.set_partial_many(key, offset_values) }
+    fn erase(&self, key: &zarrs::storage::StoreKey) -> Result<(), zarrs::storage::StorageError> { self.inner.erase(key) }
+    fn erase_prefix(&self, prefix: &zarrs::storage::StorePrefix) -> Result<(), zarrs::storage::StorageError> { self.inner.erase_prefix(prefix) }
+    fn supports_set_partial(&self) -> bool { self.inner.supports_set_partial() }
+}
+impl zarrs::storage::ListableStorageTraits for DelayStore {
+    fn list(&self) -> Result<zarrs::storage::StoreKeys, zarrs::storage::StorageError> { self.inner.list() }
+    fn list_prefix(&self, prefix: &zarrs::storage::StorePrefix) -> Result<zarrs::storage::StoreKeys, zarrs::storage::StorageError> { self.inner.list_prefix(prefix) }
+    fn list_dir(&self, prefix: &zarrs::storage::StorePrefix) -> Result<zarrs::storage::StoreKeysPrefixes, zarrs::storage::StorageError> { self.inner.list_dir(prefix) }
+    fn size_prefix(&self, prefix: &zarrs::storage::StorePrefix) -> Result<u64, zarrs::storage::StorageError> { self.inner.size_prefix(prefix) }
 }
 
 struct TokioSpawnBlocking;
@@ -80,7 +114,7 @@ pub fn gen_case(seed: u64, case: u64, tier: &str) -> Cfg {
     run.num_tune = match case % 5 { 0 => 0, 1 => chunk, 2 => chunk + 1, 3 => (2 * chunk).saturating_sub(1).max(1), _ => 5 + r.below(30) }.min(60);
     run.num_draws = match case % 7 { 0 => 0, 1 => 1, 2 => chunk, 3 => chunk + 1, _ => 3 + r.below(25) }.min(60);
     run.chain = r.below(run.num_chains as u64);
-    Cfg { run, chunk, backend: if tier == "thorough" { (case % 3) as u8 } else { match case % 6 { 0 => 1, 1 | 3 => 2, _ => 0 } }, every: if case % 4 == 3 { 3 } else { 1 } }
+    Cfg { run, chunk, backend: if tier == "thorough" { if case % 12 == 5 { 3 } else { (case % 3) as u8 } } else { match case % 6 { 0 => 1, 1 => 2, 3 => 3, _ => 0 } }, every: if case % 4 == 3 { 3 } else { 1 } }
 }
 
 /// op sequences for the Lean model: one record per (variable, chunk size) with values abstracted to their position
